@@ -77,6 +77,19 @@ def run(ctx):
         ctx.exhaustive_parts.append("all 65536 two-byte headers in front of a valid frame body")
     for h in hdrs:
         inputs.append(h + body)
+    # ... and in front of bodies that themselves contain b5 62 (a header test must look at offset 0 only)
+    for emb in (gen.ubx_frame(1, 2, b"\xb5\x62" + bytes(26)), gen.ubx_frame(6, 8, b"\x00\xb5\x62\x00\x01\x00"),
+                gen.ubx_frame(0x77, 1, b"\xb5\x62\xb5\x62")):
+        inputs.append(emb)
+        for h in hdrs[:: (1 if not ctx.quick() else 7)] + [b"\x00\x00", b"\xb5\x00", b"\x00\x62", b"\x62\xb5", b"\xb4\x62", b"\xb5\x63"]:
+            inputs.append(h + emb[2:])
+    for keyb in (b"\x06\x08", b"\x05\x01"):
+        for tgt in gen.SPECIAL_CHECKSUMS:
+            f = gen.frame_with_checksum(keyb[0], keyb[1], tgt, rng)
+            if f:
+                inputs.append(f)
+                inputs.append(f[:-2])
+                inputs.append(f + b"\r\n")
     ctx.count("inputs", len(inputs))
 
     cmds = []
